@@ -90,3 +90,12 @@ Fixpoint distinct (l : list (list Z)) : bool :=
   | [] => true
   | x :: r => negb (existsb (list_eqb x) r) && distinct r
   end.
+
+(* list update at an index *)
+Fixpoint upd {A} (l : list A) (n : nat) (x : A) : list A :=
+  match l, n with
+  | [], _ => []
+  | _ :: t, O => x :: t
+  | h :: t, S k => h :: upd t k x
+  end.
+
